@@ -149,6 +149,11 @@ class ZkStore:
 
 
 class _Handler:
+    @staticmethod
+    def sleep_func(_seconds):
+        """kazoo handlers expose sleep_func (used by KazooRetry in
+        treadmill.zkwatchers.ExistingDataWatch); the fake never needs to wait."""
+
     def event_object(self):
         return threading.Event()
 
